@@ -99,7 +99,7 @@ Definition split_match (n : node) : bool :=
   match n with
   | Leaf ty v =>
       ttype_eqb ty T_Keyword &&
-      existsb (fun dw => search_ci (fst dw) (snd dw) (upper v)) split_words
+      existsb (fun dw => search_ci (fst dw) (snd dw) (knorm v)) split_words
   | Grp _ _ _ => false
   end.
 
